@@ -142,3 +142,125 @@ Lemma no_self_exclusion_refuted :
   In [6; 9] (pred_yields_no_self_exclusion [[5; 7]; [6; 9]] [[6; 9]; [5; 7]]) /\
   ~ In [6; 9] (pred_yields [6; 9] [[5; 7]; [6; 9]] [[6; 9]; [5; 7]]).
 Proof. split; [vm_compute; auto|apply pred_never_self]. Qed.
+
+(* ================================================================ composition with the resolution of Model/Deps.v *)
+From Coq Require Import Relations.
+From LCC Require Import Proofs.FixtureP.
+
+(* the test at path p, with its declared dependencies put in path form *)
+Definition retest (keys : list path) (decl : path -> list ddep) (p : path) (t : test) : test :=
+  mkTest (tt_name t) (tt_disabled t) (expand p keys (decl p)) (tt_args t) (tt_params t) (tt_body t).
+
+Definition rerow (keys : list path) (decl : path -> list ddep) (x : path * bool * test) : path * bool * test :=
+  (fst (fst x), snd (fst x), retest keys decl (fst (fst x)) (snd x)).
+
+Lemma flat_map_map_fun : forall {A B C} (f : A -> list B) (g : B -> C) l,
+  map g (flat_map f l) = flat_map (fun a => map g (f a)) l.
+Proof. intros A B C f g l; induction l as [|a l IH]; simpl; [reflexivity|rewrite map_app, IH; reflexivity]. Qed.
+
+Lemma flat_map_ext_in : forall {A B} (f g : A -> list B) l, (forall a, In a l -> f a = g a) -> flat_map f l = flat_map g l.
+Proof.
+  intros A B f g l; induction l as [|a l IH]; intros H; simpl; [reflexivity|].
+  rewrite (H a (or_introl eq_refl)), IH; [reflexivity|intros; apply H; right; assumption].
+Qed.
+
+Lemma expand_subs_map : forall keys decl p subs,
+  (fix go (l : list suite) : list suite :=
+     match l with [] => [] | x :: r => expand_suite keys decl p x :: go r end) subs = map (expand_suite keys decl p) subs.
+Proof. intros keys decl p subs; induction subs as [|x r IH]; simpl; [reflexivity|rewrite IH; reflexivity]. Qed.
+
+Lemma expand_suite_rows : forall keys decl s prefix inh,
+  suite_tests_with_path prefix inh (expand_suite keys decl prefix s) =
+  map (rerow keys decl) (suite_tests_with_path prefix inh s).
+Proof.
+  intros keys decl s; induction s as [n d h i ts subs IH] using suite_ind2; intros prefix inh.
+  simpl. rewrite expand_subs_map, map_app, map_map, map_map. f_equal.
+  rewrite flat_map_map_fun, flat_map_concat_map, map_map, <- flat_map_concat_map.
+  apply flat_map_ext_in; intros s Hs; apply IH; exact Hs.
+Qed.
+
+Lemma expand_project_rows : forall decl suites,
+  all_tests_with_path (expand_project decl suites) = map (rerow (keys_of suites) decl) (all_tests_with_path suites).
+Proof.
+  intros decl suites; unfold all_tests_with_path, expand_project.
+  rewrite flat_map_map_fun, flat_map_concat_map, map_map, <- flat_map_concat_map.
+  apply flat_map_ext_in; intros s _; apply expand_suite_rows.
+Qed.
+
+(* find_last over rows whose value is rebuilt from the key *)
+Lemma find_last_rebuild : forall {V W} (f : path -> V -> W) (l : list (path * V)) k,
+  find_last (map (fun kv => (fst kv, f (fst kv) (snd kv))) l) k =
+  match find_last l k with Some v => Some (f k v) | None => None end.
+Proof.
+  intros V W f l k; induction l as [|[k' v] l IH]; simpl; [reflexivity|].
+  rewrite IH; destruct (find_last l k); [reflexivity|].
+  destruct (path_eqb k k') eqn:E; [apply path_eqb_eq in E; subst; reflexivity|reflexivity].
+Qed.
+
+(* the table of the expanded project: same paths, every test with the path form of its declared dependencies *)
+Lemma find_test_expand : forall decl suites p,
+  find_test (expand_project decl suites) p =
+  match find_test suites p with Some t => Some (retest (keys_of suites) decl p t) | None => None end.
+Proof.
+  intros decl suites p; unfold find_test; rewrite expand_project_rows, map_map.
+  rewrite <- (find_last_rebuild (retest (keys_of suites) decl) (map (fun x => (fst (fst x), snd x)) (all_tests_with_path suites)) p).
+  rewrite map_map; reflexivity.
+Qed.
+
+Lemma keys_of_find : forall suites p, In p (keys_of suites) <-> find_test suites p <> None.
+Proof.
+  intros suites p; unfold keys_of; rewrite <- dict_find_keys, tests_dict_find; reflexivity.
+Qed.
+
+(* An edge of the expanded project *)
+Lemma dep_edge_expand : forall decl suites a d,
+  DepEdge (find_test (expand_project decl suites)) a d <->
+  find_test suites a <> None /\ In d (expand a (keys_of suites) (decl a)).
+Proof.
+  intros decl suites a d; unfold DepEdge; split.
+  - intros [t [Ht Hd]]; rewrite find_test_expand in Ht.
+    destruct (find_test suites a) as [t0|]; [|discriminate].
+    inversion Ht; subst; simpl in Hd; split; [discriminate|exact Hd].
+  - intros [Ha Hd]; destruct (find_test suites a) as [t0|] eqn:E; [|contradiction Ha; reflexivity].
+    exists (retest (keys_of suites) decl a t0); split; [rewrite find_test_expand, E; reflexivity|exact Hd].
+Qed.
+
+(* THE COMPOSITION. A project whose dependencies are declared by paths and predicates is prepared by resolving the
+   dependencies of its path form. If that fails with "Cannot find dependency test", some test NAMES, by its path, a test that
+   does not exist: predicates are never the cause, whatever they hold for. *)
+Theorem unknown_dependency_comes_from_a_path : forall decl suites e,
+  resolve_tests_dependencies (expand_project decl suites) (expand_project decl suites) = Err e ->
+  e = ValidationError RDepUnknown ->
+  exists a d, find_test suites a <> None /\ In (DPath d) (decl a) /\ find_test suites d = None.
+Proof.
+  intros decl suites e H He.
+  assert (C : sched_consistent (find_test (expand_project decl suites)) (find_test (expand_project decl suites))).
+  { intros p t Hp; exists t; split; [exact Hp|reflexivity]. }
+  destruct (resolve_tests_dependencies_sound _ _ _ C H) as [r [Er Inv]].
+  rewrite He in Er; inversion Er; subst r; simpl in Inv.
+  destruct Inv as [a [d [_ [Edge Hd]]]].
+  apply dep_edge_expand in Edge; destruct Edge as [Ha Hin].
+  rewrite find_test_expand in Hd.
+  assert (Hd' : find_test suites d = None) by (destruct (find_test suites d); [discriminate|reflexivity]).
+  exists a, d; split; [exact Ha|split; [|exact Hd']].
+  apply (expand_known a (keys_of suites) (decl a) d Hin).
+  intros K; apply keys_of_find in K; contradiction.
+Qed.
+
+(* ... and a project that declares its dependencies by predicates only is never rejected for an unknown dependency *)
+Corollary predicates_only_never_unknown : forall decl suites,
+  (forall a p, ~ In (DPath p) (decl a)) ->
+  resolve_tests_dependencies (expand_project decl suites) (expand_project decl suites) <> Err (ValidationError RDepUnknown).
+Proof.
+  intros decl suites Hp H.
+  destruct (unknown_dependency_comes_from_a_path decl suites _ H eq_refl) as [a [d [_ [Hd _]]]].
+  exact (Hp a d Hd).
+Qed.
+
+(* a one-hop cycle a -> a of the expanded project can only come from a test naming its own path *)
+Theorem self_edge_comes_from_a_path : forall decl suites a,
+  DepEdge (find_test (expand_project decl suites)) a a -> In (DPath a) (decl a).
+Proof.
+  intros decl suites a H; apply dep_edge_expand in H; destruct H as [_ H].
+  apply self_dependency_only_by_path in H; exact H.
+Qed.
